@@ -70,6 +70,7 @@ struct Runner {
     static uint8_t pat(int id, size_t i) { return (uint8_t)(id * 31 + i * 7 + 3); }
     bool pattern_ok(Block &b, bool full) {
         size_t n = b.size;
+        if (n >= ((size_t)1 << 26)) full = false; // huge blocks: only the edges carry the pattern
         if (full || n <= 256) { for (size_t i = 0; i < n; i++) if (b.p[i] != pat(b.id, i)) return false; return true; }
         for (size_t i = 0; i < 64; i++) if (b.p[i] != pat(b.id, i) || b.p[n - 1 - i] != pat(b.id, n - 1 - i)) return false;
         return true;
@@ -161,8 +162,9 @@ struct Runner {
                 if (((uintptr_t)p) % alignof(max_align_t) != 0) { fail("ALIGN", "block of size " + std::to_string(size) + " at " + std::to_string((uintptr_t)p % 64) + " mod 64 is not aligned to max_align_t (" + std::to_string(alignof(max_align_t)) + ")"); }
                 if (p < (uint8_t *)b.alloc || p + size > (uint8_t *)b.alloc + track::st().last_alloc_size) fail("ALLOC", "user area not inside the allocation");
                 if (m_mem_size(p) != size) fail("SIZE", "m_mem_size = " + std::to_string(m_mem_size(p)) + " for a block requested with " + std::to_string(size));
-                for (size_t j = 0; j < size; j++) { if (p[j] != 0) { /* zero-initialised today; not required */ break; } }
-                for (size_t j = 0; j < size; j++) p[j] = pat(b.id, j);
+
+                if (size >= ((size_t)1 << 26)) { for (size_t j = 0; j < 64; j++) { p[j] = pat(b.id, j); p[size - 1 - j] = pat(b.id, size - 1 - j); } cls.insert("huge-block"); }
+                else for (size_t j = 0; j < size; j++) p[j] = pat(b.id, j);
                 blocks.push_back(b); by_ptr[p] = b.id; by_alloc[b.alloc] = b.id; acquire_order.push_back(b.id);
                 // adoption: the parent's destructor will release this block
                 if (op.arg(2) > 0) {
@@ -277,8 +279,16 @@ static bool exhaustive(const rt::Args &args, rt::Stats &stats, rt::Failure &fail
             stats.record(to_text(c), v);
             if (!v.ok) { failure.present = true; failure.rule = v.rule; failure.message = v.message; failure.text = to_text(c); return false; }
         }
+    // sizes beyond 32 bits ("the reported size always equals the requested size"): backed by untouched address space
+    if (args.shard == 0) for (long size : {(long)1 << 32, ((long)1 << 32) + 24, ((long)1 << 33) + 5, ((long)1 << 31) + 3}) {
+        Case c; c.misaligned = 0;
+        c.ops = {mk(NEW, {size, 1, 0}), mk(REF, {0}), mk(SIZE, {0}), mk(UNREF, {0}), mk(SIZE, {0}), mk(UNREFP, {0})};
+        rt::Verdict v = rt::run_forked(args.prop, [&] { return eval_case(c, args); });
+        total++; v.nontrivial = true; stats.record(to_text(c), v);
+        if (!v.ok) { failure.present = true; failure.rule = v.rule; failure.message = v.message; failure.text = to_text(c); return false; }
+    }
     stats.exhaustive = true;
-    stats.exhaustive_note = "every requested size 0.." + std::to_string(N) + " with both allocator alignments (new, ref, second block, unref, size, unrefp)";
+    stats.exhaustive_note = "every requested size 0.." + std::to_string(N) + " with both allocator alignments (new, ref, second block, unref, size, unrefp), plus four sizes beyond 2^31 / 2^32 / 2^33";
     stats.counters["exhaustive_sizes_x_allocators"] = total;
     return true;
 }
